@@ -992,12 +992,16 @@ func (c *ctx) mainFlow(replay string, keep bool) int {
 						break
 					}
 					upTo := to
+					// fresh worker processes at fixed run indices: process-global state that is
+					// built once per process (a sync.Once, a pool) is "cold" there (ChunkRuns), and
+					// in any case no worker lives for more than 10000 runs (race-detector builds of
+					// the session scenarios grow by tens of KB per run)
+					chunk := 10000
 					if c.spec.ChunkRuns > 0 && scenario == c.spec.Scenario {
-						// fresh worker processes at fixed run indices: process-global state that is
-						// built once per process (a sync.Once, a pool) is "cold" there
-						if b := (from/c.spec.ChunkRuns + 1) * c.spec.ChunkRuns; b < upTo {
-							upTo = b
-						}
+						chunk = c.spec.ChunkRuns
+					}
+					if b := (from/chunk + 1) * chunk; b < upTo {
+						upTo = b
 					}
 					wo := c.worker(i, from, upTo, c.spec.Cpu, left)
 					agg.results = append(agg.results, wo.results...)
